@@ -90,7 +90,16 @@ package hotline
 //@ define inv_User(u) := (len(u.Icon) == 2 || len(u.Icon) == 4) && (len(u.Flags) == 2 || len(u.Flags) == 4) && len(u.Name) <= 65535
 
 //@ func (u *User) Read(p []byte) (n int, err error)
+//@   property C01 C13
 //@   cursor wire_User readOffset inv_User
+
+// C03: a user's icon and flags are whatever bytes that user sent (any length, also none): listing
+// the users must not panic on them -- the panic would hit every OTHER client that asks for the
+// user list or joins a chat.
+//@ func (u *User) Read(p []byte) (n int, err error)
+//@   property C03
+//@   requires u != nil && u.readOffset >= 0
+//@   nopanic
 
 //@ func (u *User) Write(p []byte) (n int, err error)
 //@   requires u != nil && len(p) >= 8 && len(p) >= 8+u16(bytes(p),6)
@@ -437,6 +446,28 @@ package hotline
 //@   before call (io.ReadWriter).Read assert false
 //@   before call (io.Reader).Read assert false
 
+// C02: the transfer handlers read the connection itself, never through a buffer of their own: a
+// buffered reader takes more than was asked for, and whatever reads the connection next (another
+// helper, the per-item acknowledgement, the payload copy) misses those bytes -- only when segments
+// happen to carry more than the current record.
+//@ func DownloadFolderHandler(rwc io.ReadWriter, fullPath string, fileTransfer *FileTransfer, fileStore FileStore, rLogger *slog.Logger, preserveForks bool) (err error)
+//@   property C02
+//@   before any call bufio.NewReader assert !same(arg0, rwc)
+//@   before any call bufio.NewReaderSize assert !same(arg0, rwc)
+//@   before any call bufio.NewScanner assert !same(arg0, rwc)
+//@   before any call io.ReadFull assert same(arg0, rwc)
+//@ func DownloadFolderHandler$1(path string, info os.FileInfo, err error) (r error)
+//@   property C02
+//@   before any call bufio.NewReader assert !same(arg0, *rwc)
+//@   before any call bufio.NewReaderSize assert !same(arg0, *rwc)
+//@   before any call io.ReadFull assert same(arg0, *rwc)
+//@ func UploadFolderHandler(rwc io.ReadWriter, fullPath string, fileTransfer *FileTransfer, fileStore FileStore, rLogger *slog.Logger, preserveForks bool) (err error)
+//@   property C02
+//@   before any call bufio.NewReader assert !same(arg0, rwc)
+//@   before any call bufio.NewReaderSize assert !same(arg0, rwc)
+//@   before any call bufio.NewScanner assert !same(arg0, rwc)
+//@   before any call io.ReadFull assert same(arg0, rwc)
+
 // C02 + C09: receiveFile copies exactly the declared data-fork size into the target or fails.
 
 //@ func receiveFile(r io.Reader, targetFile io.Writer, resForkFile io.Writer, infoFork io.Writer, counterWriter io.Writer) (err error)
@@ -561,7 +592,8 @@ package hotline
 
 //@ func (f *fileWrapper) Move(newPath string) (err error)
 //@   property C07
-//@   requires inv_fileWrapper(f) && seg(f.Name) && inroot(newPath)
+//@   requires inv_fileWrapper(f) && seg(f.Name)
+//@   requires inroot(newPath)
 //@   before call (hotline.FileStore).Rename assert inroot(arg1) && inroot(arg2)
 
 //@ func (f *fileWrapper) Delete() (err error)
@@ -818,8 +850,12 @@ package hotline
 
 // The item header: type 1 for a folder, 0 for a file; its size field covers type and path.
 
+// the count prefix is the number of sections of the path, and every section -- an empty one
+// included -- gets its item (2 zero bytes, length, name): count and items stay in step
 //@ func EncodeFilePath(filePath string) (r []byte)
-//@   property C10
+//@   property C01 C10
+//@   before call PutUint16 assert arg2 == len(callres("strings.Split")) % 65536 && same(arg1, pathItemCount)
+//@   loop 1 reaches builtin.append
 //@   ensures len(r) >= 2
 //@   modifies nothing
 //@   loop 1 invariant len(bytes) >= 2
@@ -1121,9 +1157,12 @@ package hotline
 //@ func (fs *OSFileStore) Mkdir(name string, perm os.FileMode) (err error)
 //@   property C07
 //@   before call os.Mkdir assert arg0 == name && arg1 == perm
+// (C08 / C11: the sizes and kinds the server reports are those of the file a name resolves to --
+// Stat follows an alias, as Open does when the bytes are sent)
 //@ func (fs *OSFileStore) Stat(name string) (fi os.FileInfo, err error)
-//@   property C07
+//@   property C07 C08 C11
 //@   before call os.Stat assert arg0 == name
+//@   before any call os.Lstat assert false
 //@ func (fs *OSFileStore) Open(name string) (f *os.File, err error)
 //@   property C07 C08
 //@   before call os.Open assert arg0 == name
